@@ -31,6 +31,21 @@ def audio_values(p, spec, n=None):
   return [sample_value(p, i, spec["dfmt"]) for i in range(spec["len"])]
 
 
+def _thub():
+  from audiolazy.lazy_stream import thub
+  return thub
+
+
+class _GetItemOnly(object):
+  """ Iterable only through the old sequence protocol. """
+
+  def __init__(self, vals):
+    self.vals = list(vals)
+
+  def __getitem__(self, idx):
+    return self.vals[idx]
+
+
 def hot_lines_of(module, func_names):
   """ Source lines (of the current tree) inside the named functions. """
   import inspect
@@ -166,6 +181,10 @@ class C17(Property):
               # thread) when it reaches this item
               "spawn_at": W.choose("spawnat", max(1, ln)) if kind == "gen"
               and W.chance("spawn", 1, 4) else None}
+      if kind == "list" and W.chance("wrap", 1, 3):
+        # the same finite samples handed over as another kind of iterable
+        spec["wrap"] = W.pick("wrapkind", ["stream", "hub1", "tuple", "iter",
+                                           "hub2", "sequence"])
       if spec["use_global"]:
         spec["chunk_size"] = gchunk
       specs.append(spec)
@@ -487,7 +506,25 @@ class C17(Property):
         # input device looped to the output through the real RecStream
         return ctl["aio"].record(chunk_size=spec["len"], dfmt=spec["dfmt"])
       if spec["kind"] == "list":
-        return audio_values(p, spec)
+        vals = audio_values(p, spec)
+        wrap = spec.get("wrap")
+        if wrap:
+          res.counters["probe.played-iterable-kind." + wrap] += 1
+        if wrap == "stream":
+          return lio.Stream(vals)
+        if wrap == "hub1":          # a tee hub with exactly one use
+          return _thub()(vals, 1)
+        if wrap == "hub2":          # one of the two uses is taken elsewhere
+          hub = _thub()(vals, 2)
+          ctl.setdefault("hub_uses", []).append(lio.Stream(hub))
+          return hub
+        if wrap == "tuple":
+          return tuple(vals)
+        if wrap == "iter":
+          return iter(vals)
+        if wrap == "sequence":      # iterable through __getitem__ only
+          return _GetItemOnly(vals)
+        return vals
       if spec["kind"] == "gen":
         vals = audio_values(p, spec)
         if spec.get("spawn_at") is not None:
